@@ -77,7 +77,7 @@ CLAIMS = {
          'Deductive (pyvc+z3) for modularity_finetune_und and modularity_finetune_dir: loop invariant KInv (node-to-module sums knm, node degrees, module degrees equal their definitions for the '
          'current labels: established by the initialisation loops, preserved by every move via the single-label-change update axioms) and Q(current labels) >= Q(start labels): the gain the '
          'code computes is proved equal to the expression of the gain lemma (Qraw_move + nm_modularity, proved in Lean, DESIGN Appendix A), a move is accepted only if it exceeds 1e-10, hence '
-         'every accepted move raises Q; the final relabelling does not change Q. The Louvain family, the signed variants and community_louvain are bounded only: a monitor woven into the real '
+         'every accepted move raises Q; the final relabelling does not change Q. For modularity_louvain_und and community_louvain ONE hierarchy level (initialisation of the bookkeeping + all node-moving sweeps) is proved the same way as a fragment contract for an arbitrary working matrix / objective matrix (assumed at level entry: symmetric aggregate, s = its total; consistent Hnm); the same fragment contract on modularity_louvain_dir leaves exactly the obligations of the known finding open (knm_i initialisation, exchanged updates). The composition of levels, the Louvain family end to end, the signed variants and community_louvain are bounded only: a monitor woven into the real '
          'functions compares the claimed gain of every move with the exact change of an independent reference Q (all graphs n<=4, all start partitions, all visiting orders, hierarchy levels).',
          PROOF_NOTE + ' Gain lemma and sum identities assumed in SMT (Lean-proved); nonlinear products kept uninterpreted with sign axioms for quotients.',
          'pyvc + z3 + gain lemma for finetune_und/_dir; woven per-move gain monitor over exhaustive small scopes (bounded) for the other optimisers', '5/C07'),
